@@ -67,3 +67,39 @@ Proof. vm_compute. split; reflexivity. Qed.
 Require Import BV.gen.GenAshFn BV.proofs.AshSrc_proofs.
 Theorem c02_source_unstuff : forall d, py_unstuff_bytes d = unstuff d.
 Proof. exact src_unstuff. Qed.
+
+(* the receive loop itself is the function the source text defines now (gen/GenAshLoopFn.v, emitted from the Python
+   AST of AshProtocol.data_received on every run: the `while self._buffer:` loop on explicit fuel len(buffer) + 1, its
+   try / except clauses resolved structurally, frame_received = the emitted py_frame_received of gen/GenAshRxFn.v).
+   From every starting state and for every read the emitted function RETURNS -- it neither raises nor runs out of fuel --
+   with the buffer, the discarding flag and the receive number of the model's data_received, and the writes and upward
+   calls it makes (eff_obs reads a call as the model's output) are the model's observable outputs, in order.  tx, fl,
+   code: the other attributes frame_received works on; eff0: the calls made before *)
+Require Import BV.gen.GenAshRxFn BV.gen.GenAshLoopFn BV.proofs.AshRxSrc_proofs BV.proofs.AshLoopSrc_proofs.
+Theorem c02_source_receive_loop : forall st tx fl code eff0 chunk,
+  exists tx' fl' code' e,
+    py_data_received (buf st, discarding st, rxseq st, tx, fl, code, eff0) chunk =
+      Done (buf (fst (data_received st chunk)), discarding (fst (data_received st chunk)),
+            rxseq (fst (data_received st chunk)), tx', fl', code', eff0 ++ e)
+    /\ flat_map eff_obs e = filter observable (snd (data_received st chunk)).
+Proof. exact src_receive_loop. Qed.
+
+(* the fuel is not special: with any amount above the length of the buffer the emitted loop gives the result it gives
+   with len(buffer) + 1, and that result is a normal return (every iteration that does not break consumes a byte) *)
+Theorem c02_source_loop_fuel : forall fuel s,
+  (length (buffer_of s) < fuel)%nat ->
+  py_while py_data_received_loop_test py_data_received_loop_body fuel s =
+  py_while py_data_received_loop_test py_data_received_loop_body (S (length (buffer_of s))) s
+  /\ exists s', py_while py_data_received_loop_test py_data_received_loop_body fuel s = Done s'.
+Proof. exact src_loop_fuel. Qed.
+
+(* hence the emitted function, called read after read (py_feed), is the reference decoder: same final residue, flag and
+   receive number, same deliveries, reset notifications and ACK / NAK numbers in the same order *)
+Theorem c02_source_refines_reference : forall chunks tx fl code,
+  residue_ok chunks ->
+  exists tx' fl' code' e,
+    py_feed ([], false, 0, tx, fl, code, []) chunks =
+      Done (racc (ref_after (concat chunks)), rdisc (ref_after (concat chunks)), rrx (ref_after (concat chunks)),
+            tx', fl', code', e)
+    /\ flat_map eff_obs e = filter observable (snd (ref_run ref_init (concat chunks))).
+Proof. exact src_feed_reference. Qed.
